@@ -3,6 +3,7 @@
 //	css  <style>  => <sanitizeStyle(style)> <tokens of style> <tokens of the result>
 //	html <doc>    => <sanitizeStyleTags(doc)|ERR> <tokenizer items of doc> <sanitize.HTML(doc)|ERR> <report>
 //	text <text>   => <web.TextToHTML(text)> <URL match intervals in the escaped text>
+//	msg  <html> <text> => see msg.go (through enmime and the real webui.MailboxMessage handler)
 //
 // The third-party parsers are run here and their results handed to the model as inputs:
 // the gorilla/css scanner's token list (type:value,...), the x/net/html tokenizer's items
@@ -248,6 +249,8 @@ func exec(kind string, in []string) []string {
 			rep = report(final)
 		}
 		return []string{f0, its, f2, rep}
+	case "msg":
+		return execMsg(in)
 	case "text":
 		s := vh.US(in[0])
 		return []string{"S" + vh.HS(web.TextToHTML(s)), intervals(s)}
